@@ -17,8 +17,11 @@ from checks import rt
 
 PROP = "C20"
 LEVEL = "model_checking"
-RULE = ("document sets (values from a two-letter pool) x every query of <=K attribute/value pairs of one kind (values "
-        "present or absent) + multi-kind queries x {string, dictionary} parameters x {match, fuzzy}; every reported "
+RULE = ("document sets (values from a two-letter pool; values with blanks at the ends; values carried by exactly one of two "
+        "kinds that share the attribute; values of characters special to format strings, SPARQL, XML and regular "
+        "expressions) x every query of <=K attribute/value pairs of one kind (values "
+        "present or absent) + multi-kind queries (also the same attribute = value asked of two kinds) "
+        "x {string, dictionary} parameters x {match, fuzzy}; every reported "
         "combination compared with a reference evaluation; non-trivial = a reported combination with at least one matching object")
 WATCHDOG_S = 120
 
@@ -92,7 +95,7 @@ CHAR_ATOMS = ["{", "}", "{}", "{node}", "{0}", "a}b", "s^{-1}", "%s", "%", "%d%%
 # blanks by the SPARQL parser (no hit).  Reported; the atoms stay in the enumeration and are switched on again by
 # setting SKIP_BASELINE_DEFECT_ATOMS to False once /repo escapes the value.
 BASELINE_DEFECT_ATOMS = ["back\\slash", "\\", "x\\", "a\\tb", "a\\\\b", "a\\u0041b", "a\nb", "a\rb", "a\tb"]
-SKIP_BASELINE_DEFECT_ATOMS = True        # TODO baseline-defect
+SKIP_BASELINE_DEFECT_ATOMS = False       # repaired by fix 8517be1: the atoms are enumerated
 
 
 def char_atoms():
@@ -572,9 +575,13 @@ def check(tier):
         "containment only); 'value' searches are not part of the quantifier",
         "a combination that contains two different values for one attribute of one kind has no matching object and must not be reported",
         "fuzzy terms with a blank at either end are passed by dictionary only (the 'HAVING a, b' form separates by comma and blank)",
-    ])
+        "the value a printed query asks for is the text its SPARQL string literal denotes (escape sequences resolved)",
+    ] + (["TODO baseline-defect: values with a backslash, line break, carriage return or tabulator are enumerated but "
+          "switched off (SKIP_BASELINE_DEFECT_ATOMS): the unchanged tree puts them unescaped into the SPARQL literal"]
+         if SKIP_BASELINE_DEFECT_ATOMS else []))
     cases = gen_cases(tier)
-    run.bounds = {"pairs_per_kind": 2 if tier == "quick" else 3, "document_sets": len(doc_sets())}
+    run.bounds = {"pairs_per_kind": 2 if tier == "quick" else 3, "document_sets": len(doc_sets()),
+                  "special_character_values": len(char_atoms())}
     run.layer("match+fuzzy", cases=len(cases), queries=sum(len(c["queries"]) + len(c["fuzzy"]) for c in cases))
     par.run_cases(run, "checks.c20", cases, nchunks=par.JOBS * 8)
     return run.finish(reproduce=lambda f: replay(f))
